@@ -208,6 +208,40 @@ def impl_swapper(c):
                         src[:la.size] = gfield(la).reshape(-1)
                         sw.transpose(src, dst, a, b, np.full(bs, -3.0) if use_buf else None)
                         out['tr'].append((a, b, use_buf, bool((dst[:lb.size].reshape(lb.shape) == gfield(lb)).all())))
+            # accessors of grids that live on a swapper: they must follow the grid's own layout, whatever layout the swapper
+            # (shared by several grids, or left elsewhere by a save / restore) handled last
+            from pygyro.model.grid import Grid
+            out['acc_bad'] = []
+
+            def acc_check(g, tag):
+                L = g.getLayout(g.currentLayout)
+                for i in range(3):
+                    if [int(x) for x in g.getGlobalIdxVals(i)] != list(range(int(L.starts[i]), int(L.ends[i]))):
+                        out['acc_bad'].append('%s: getGlobalIdxVals(%d)' % (tag, i))
+                    if [float(x) for x in g.getCoordVals(i)] != [float(x) for x in eta[L.dims_order[i]][L.starts[i]:L.ends[i]]]:
+                        out['acc_bad'].append('%s: getCoordVals(%d)' % (tag, i))
+                if all(n_ > 0 for n_ in L.shape):
+                    loc = [n_ - 1 for n_ in L.shape]
+                    exp = [None] * 3
+                    for i in range(3):
+                        exp[L.dims_order[i]] = loc[i] + int(L.starts[i])
+                    got = [int(x) for x in g.getGlobalIndices(*loc)]
+                    if got != exp:
+                        out['acc_bad'].append('%s: getGlobalIndices%r = %r, expected %r' % (tag, tuple(loc), got, exp))
+            for start in ('v_parallel_1d', 'poloidal', 'mode_solve'):
+                sw2 = LayoutSwapper(comm, [{'v_parallel_2d': [0, 2, 1], 'mode_solve': [1, 2, 0]}, {'v_parallel_1d': [0, 2, 1]},
+                                           {'poloidal': [2, 1, 0]}], [list(nprocs), nprocs[0], nprocs[1]], eta, start)
+                g2 = Grid(eta, [None] * 3, sw2, 'v_parallel_2d', comm, allocateSaveMemory=True)      # grid layout != swapper's start layout
+                acc_check(g2, 'grid on v_parallel_2d, swapper started on %s' % start)
+                g3 = Grid(eta, [None] * 3, sw2, 'v_parallel_2d', comm)
+                g3.setLayout('v_parallel_1d')                                                       # another grid moved last
+                acc_check(g2, 'grid on v_parallel_2d after another grid of the same swapper moved to v_parallel_1d')
+                acc_check(g3, 'second grid on v_parallel_1d')
+                g2.saveGridValues()
+                g2.setLayout('poloidal')
+                acc_check(g2, 'after save and setLayout(poloidal)')
+                g2.restoreGridValues()
+                acc_check(g2, 'after restore to v_parallel_2d')
         return out
     R = MPI.run(nprocs[0] * nprocs[1], work, seed=seed, timeout=120)
     if R.outcome != 'ok':
@@ -436,6 +470,10 @@ def run():
         for rk, out in enumerate(r[1]):
             small = [n for n, sz in out['sizes'].items() if sz > out['bufsize']]
             wrong = [(a, b, ub) for a, b, ub, ok in out['tr'] if not ok]
+            if out.get('acc_bad'):
+                found_input = True
+                chk.violation('grid.Grid:accessor-on-swapper', 'LayoutSwapper N=%r nprocs=%r rank %d: %s disagree(s) with the partition of the grid\'s own layout'
+                              % (N, nprocs, rk, '; '.join(out['acc_bad'][:3])), {'kind': 'impl', 'case': ['swapper', N, nprocs, seed], 'rank': rk, 'accessors': out['acc_bad'][:10]})
             if small or wrong:
                 found_input = True
                 chk.violation('layout.LayoutSwapper:bufferSize', 'LayoutSwapper N=%r nprocs=%r rank %d: bufferSize %d; layouts larger than it: %r; wrong transposes with exact-size arrays: %r'
